@@ -17,3 +17,62 @@ Inductive Copy : ty -> Prop :=
 | CExtParams d a c idx : td_bound d = FromParams idx ->
     Forall (fun i => forall t, nth_error a i = Some (AType t) -> Copy t) idx -> Copy (TExt d a c).
 (* qubits are not: there is no constructor for TQubit, nor for the Any-bounded atoms *)
+
+(* ---- boolean form (computes; used by the monitor), written without reference to [tbound] ---- *)
+Fixpoint copy_b (t : ty) : bool :=
+  let fix row (l : list ty) : bool := match l with [] => true | x :: r => copy_b x && row r end in
+  let fix rows (l : list (list ty)) : bool := match l with [] => true | x :: r => row x && rows r end in
+  (* the type argument at position i, if it is a type, must be copyable *)
+  let fix at_arg (l : list tyarg) (i : nat) : bool :=
+    match l, i with
+    | [], _ => true
+    | AType t' :: _, O => copy_b t'
+    | _ :: _, O => true
+    | _ :: r, S k => at_arg r k
+    end in
+  match t with
+  | TSum rs => rows rs
+  | TUnitSum _ | TUSize | TFunc _ _ _ | TPoly _ _ _ _ => true
+  | TQubit => false
+  | TVar _ b | TRowVar _ b | TAlias _ b | TOpaque _ _ _ b => bound_eqb b Copyable
+  | TExt d a _ =>
+      match td_bound d with
+      | Explicit b => bound_eqb b Copyable
+      | FromParams idx => (fix all (l : list nat) : bool := match l with [] => true | i :: r => at_arg a i && all r end) idx
+      end
+  end.
+
+(* the order on bounds: Copyable below Any *)
+Definition ble (a b : bound) : bool := match a, b with Any, Copyable => false | _, _ => true end.
+Definition is_lub (bs : list bound) (j : bound) : Prop :=
+  (forall b, In b bs -> ble b j = true) /\ (forall u, (forall b, In b bs -> ble b u = true) -> ble j u = true).
+
+(* well-formedness (the property's quantifier: index lists in range; a std collection's element argument
+   is a type): every index a from-parameters definition names exists in the argument list, hereditarily *)
+Fixpoint wf_b (t : ty) : bool :=
+  let fix row (l : list ty) : bool := match l with [] => true | x :: r => wf_b x && row r end in
+  let fix rows (l : list (list ty)) : bool := match l with [] => true | x :: r => row x && rows r end in
+  let fix args (l : list tyarg) : bool := match l with [] => true | x :: r => wf_arg x && args r end in
+  match t with
+  | TSum rs => rows rs
+  | TFunc i o _ | TPoly _ i o _ => row i && row o
+  | TOpaque _ _ a _ => args a
+  | TExt d a c =>
+      args a &&
+      match td_bound d with
+      | Explicit _ => true
+      | FromParams idx => forallb (fun i => Nat.ltb i (length a)) idx
+      end &&
+      match c with
+      | Generic => true
+      | ElemAt i => match nth_error a i with Some (AType _) => true | _ => false end
+      end
+  | _ => true
+  end
+with wf_arg (a : tyarg) : bool :=
+  let fix args (l : list tyarg) : bool := match l with [] => true | x :: r => wf_arg x && args r end in
+  match a with
+  | AType t => wf_b t
+  | ASeq l => args l
+  | _ => true
+  end.
